@@ -304,6 +304,22 @@ def interp_witness(h, obs):
     return interp.witness(crate, h, ops.items(), props.replay_tool(), want=want)
 
 
+def jit_witness(h, obs):
+    import props
+    crate = os.path.join(WORK, 'std', 'jit')
+    info_ops = interp.opcode_table(driver.REPO).items()
+    want = obs[0]['name'].strip('"') if obs else None
+    return jit_unit.witness(crate, h, info_ops, props.replay_tool(), want=want)
+
+
+def clif_witness(h, obs):
+    import props
+    crate = os.path.join(WORK, 'std', 'clif')
+    _, ops = clif.opcodes_of(driver.REPO)
+    want = obs[0]['name'].strip('"') if obs else None
+    return clif.witness(crate, h, ops.items(), props.replay_tool(), want=want)
+
+
 UNITS = {
     'interp': dict(run=kani_unit(interp.generate, harness_file='src/interpreter/harnesses.rs'),
                    witness=lambda h, obs: interp_witness(h, obs)),
@@ -311,8 +327,8 @@ UNITS = {
     'disasm': dict(run=kani_unit(disasm.generate, harness_file='src/disassembler/harnesses.rs')),
     'asm': dict(run=kani_unit(asm.generate, harness_file='src/assembler.rs')),
     'vmapi': dict(run=kani_unit(vmapi.generate, harness_file='src/harnesses.rs')),
-    'jit': dict(run=kani_unit(jit_unit.generate, harness_file='src/jit/harnesses.rs')),
-    'clif': dict(run=kani_unit(clif.generate, harness_file='src/cranelift/harnesses.rs')),
+    'jit': dict(run=kani_unit(jit_unit.generate, harness_file='src/jit/harnesses.rs'), witness=lambda h, obs: jit_witness(h, obs)),
+    'clif': dict(run=kani_unit(clif.generate, harness_file='src/cranelift/harnesses.rs'), witness=lambda h, obs: clif_witness(h, obs)),
     'cfgdiff': dict(run=cfgdiff_unit()),
     'wfwitness': dict(run=native_unit(['wf-witness'], 'vacuity guard: a concrete instruction satisfies the precondition wf_facts of the per-opcode harnesses, opcode')),
     'asmtable': dict(run=native_unit(['asm-table'], 'assemble() of the documented mnemonic')),
